@@ -1,6 +1,7 @@
 package c01
 
 import (
+	"bytes"
 	"crypto/tls"
 	"encoding/binary"
 	"fmt"
@@ -61,6 +62,23 @@ func sshSpecial(cc *lab.CliConn, s gen.Service, sc scenario, c int) (reply int) 
 			cs = sc.Force
 		}
 		switch cs {
+		case 7:
+			// a shell that is sent a key sequence which never ends (an escape sequence without its final letter,
+			// longer than the line editor's 256-byte buffer); then the client goes away
+			var ch ssh.Channel
+			var rq <-chan *ssh.Request
+			ok := withTimeout(3*time.Second, func() { ch, rq, err = conn.OpenChannel("session", nil) })
+			if !ok || err != nil {
+				return
+			}
+			go ssh.DiscardRequests(rq)
+			withTimeout(2*time.Second, func() { ch.SendRequest("shell", true, nil) })
+			withTimeout(2*time.Second, func() {
+				ch.Write([]byte("ls\n"))
+				ch.Write(append([]byte{0x1b, '['}, bytes.Repeat([]byte("1;"), 300)...))
+			})
+			time.Sleep(50 * time.Millisecond)
+			return
 		case 6:
 			// a session channel kept open while far more further channels are opened than any queue of
 			// pending opens holds; then the client goes away
